@@ -15,6 +15,9 @@ package agent
 // (all-zero, the small-order points of Curve25519 and their non-canonical encodings) are presented
 // to every responder kind (in the OPEN) and to every real initiator (in the ACK): no session key may
 // be installed / no connection returned.
+//
+// The shell / file-transfer / ICMP INITIATORS, the ICMP exit handler and ICMP end to end are the
+// second half of this check: initiators_test.go (c03xAll), called below through the same Result.
 
 import (
 	"context"
@@ -399,9 +402,18 @@ func c03Initiator(r *vmc.Result, cs c03Case, keys map[[32]byte]string) {
 func TestVerif_C03(t *testing.T) {
 	r := vmc.New("C03", "exploration")
 	r.Rule = "grid: responder kinds {tcp, forward, udp, file upload/download, shell stream/interactive} x request ids x fresh ephemeral keys (key equality via in-package accessors) + real initiators {DialContext, DialForward, RelayUDPDatagram} against a scripted responder (first sealed frame must open under the responder-side derivation) + every degenerate Curve25519 public key presented to every responder and every initiator; all keys of the run pairwise distinct; non-trivial = honest handshakes completed (distinct by side, kind, request id)"
-	r.Assume("ephemeral keys come from crypto/rand (not enumerated); ICMP sessions and the shell/file-transfer INITIATOR paths are not driven (ICMP sockets unavailable; shell/file initiators share deriveResponderSessionKey's mirror image with the driven ones)")
+	r.Assume("ephemeral keys come from crypto/rand (not enumerated); the domain-route dial (dialViaDomainRoute) is not driven separately")
 	var rp c03Case
+	var rpx c03xCase
 	keys := map[[32]byte]string{}
+	if r.ReplayInto(&rpx) && rpx.Ext {
+		// artefact of the second half (initiators_test.go)
+		c03xRun(r, rpx, keys)
+		if err := r.Finish(); err != nil {
+			t.Fatal(err)
+		}
+		return
+	}
 	if r.ReplayInto(&rp) {
 		if rp.Side == "responder" {
 			c03Responder(r, rp, keys)
@@ -469,6 +481,7 @@ func TestVerif_C03(t *testing.T) {
 		add("pubs-swapped", crypto.DeriveSessionKey(sh, 1, rp, ip, true).Key())
 		r.Nontrivial("derivation-grid")
 	}
+	c03xAll(r, keys)
 	r.Info["distinct_session_keys"] = len(keys)
 	r.Sample(c03Case{Side: "responder", Kind: "shell-stream", ReqID: 1 << 32})
 	r.Sample(c03Case{Side: "initiator", Kind: "udp", Key: c03Degenerate[2]})
